@@ -12,7 +12,7 @@ import (
 type Scenario struct {
 	Name      string
 	Cfg       Config
-	Src       Src // filled in by Check from the repository under test
+	Src       Src      // filled in by Check from the repository under test
 	Calls     []Option // start options, started in this order
 	Env       []Option // one-shot environment items
 	Early     bool     // notifications / acks / cancels may precede the start of their call
